@@ -602,6 +602,10 @@ def meta_record(ns, sid, test, b, transform, par=0):
       rec['obs'] = {'pa': [mic(pa[k]) for k in keys], 'pb': [mic(pb[k]) for k in keys]}
   except Exception as e:  # pylint: disable=broad-except
     rec['raised'] = type(e).__name__
+    if rec['raised'] == 'ZeroDivisionError' and test == 'Runs' and len(set(b)) < 2:
+      # Runs on a constant string (O1): outside the domain of SP 800-22 2.3, as in stat_record - not a verdict
+      rec['raised'] = 'none'
+      rec['obs'] = {'pa': [0], 'pb': [0]}
   return rec
 
 
@@ -680,6 +684,8 @@ def strings(rng, n):
   out = {'random': [rng.getrandbits(1) for _ in range(n)]}
   per = rng.choice([3, 5, 7, 11])
   pat = [rng.getrandbits(1) for _ in range(per)]
+  if len(set(pat)) < 2:
+    pat[rng.randrange(per)] ^= 1            # a genuinely periodic string, not a constant one
   out['periodic'] = [pat[i % per] for i in range(n)]
   k = min(n, 40)
   out['onesided'] = [1] * k + [rng.getrandbits(1) for _ in range(n - k)]
